@@ -250,12 +250,14 @@ def r7_wrappers_keep_name(ctx):
         # a nested function that calls a parameter / captured variable of an enclosing function and is returned by it: a wrapper
         outer = fi.parent
         returned = any(isinstance(r, _ast.Return) and isinstance(r.value, _ast.Name) and r.value.id == fi.name for r in _ast.walk(outer.node))
-        outer_params = set()
-        o = outer
-        while o is not None:
-            outer_params |= {a.arg for a in o.node.args.args + o.node.args.posonlyargs + o.node.args.kwonlyargs}
-            o = o.parent
-        wrapped = [c.func.id for c in _ast.walk(fi.node) if isinstance(c, _ast.Call) and isinstance(c.func, _ast.Name) and c.func.id in outer_params]
+        # the wrapped callable: a parameter of the *immediate* parent that the nested function calls or hands on to another call
+        outer_params = {a.arg for a in outer.node.args.args + outer.node.args.posonlyargs + outer.node.args.kwonlyargs}
+        wrapped = []
+        for c in walk_scope(fi.node):
+            if isinstance(c, _ast.Call):
+                if isinstance(c.func, _ast.Name) and c.func.id in outer_params:
+                    wrapped.append(c.func.id)
+                wrapped += [a_.id for a_ in c.args if isinstance(a_, _ast.Name) and a_.id in outer_params]
         if not returned or not wrapped:
             continue
         n += 1
